@@ -18,6 +18,11 @@ headers of pops-core as they are NOW:
   uniform_kernel.hpp      distribution bounds, operator()
   natural_anthropogenic_kernel.hpp  decision expression, streams, Bernoulli parameter
   natural_kernel.hpp / anthropogenic_kernel.hpp / model.hpp   constructor call sites
+  switch_kernel.hpp       SwitchDispersalKernel: constructor, the operator() if-chain (ordered
+                          decision table), is_cell_eligible, supports_kernel
+  {radial,deterministic,uniform,neighbor,network}_kernel.hpp   is_cell_eligible, supports_kernel
+  kernel_base.hpp         DynamicWrapperKernel forwards is_cell_eligible / operator()
+  kernel.hpp              create_dynamic_kernel: arguments of the mix constructor
 
 C++ is tokenised (layout and comments do not matter) and expressions are parsed
 with a small precedence parser.  Anything that no longer has the expected form
@@ -527,7 +532,9 @@ def statements(body):
             elif t == "while":
                 out.append(("while", cond, blk))
             else:
-                out.append(("switch", cond, blk))
+                # fourth component: the raw tokens of the switch body (case labels intact)
+                raw = body[j + 2:match_close(body, j + 1)] if body[j + 1][1] == "{" else None
+                out.append(("switch", cond, blk, raw))
             i = nxt
         elif t == "{":
             j = match_close(body, i)
@@ -1397,6 +1404,464 @@ def region_factories(repo, out):
         out.append("Definition factory_%s_radial_args : list string :=\n  [ %s ]." % (tag, "; ".join(coq_string(a) for a in radial_args)))
 
 
+# --------------------------------------------------------------------------
+# SwitchDispersalKernel, eligibility and supports_kernel of the kernel classes,
+# DynamicWrapperKernel, create_dynamic_kernel
+# --------------------------------------------------------------------------
+SWITCH_CLASSES = {"UniformDispersalKernel": "CUniform", "DeterministicNeighborDispersalKernel": "CNeighbor",
+                  "NetworkDispersalKernel": "CNetwork", "DeterministicDispersalKernel": "CDeterministic",
+                  "RadialDispersalKernel": "CRadial"}
+CLASS_HEADERS = [("radial_kernel.hpp", "RadialDispersalKernel"), ("deterministic_kernel.hpp", "DeterministicDispersalKernel"),
+                 ("uniform_kernel.hpp", "UniformDispersalKernel"), ("neighbor_kernel.hpp", "DeterministicNeighborDispersalKernel"),
+                 ("network_kernel.hpp", "NetworkDispersalKernel")]
+
+
+def joined(toks):
+    return "".join(t[1] for t in toks)
+
+
+def cond_term(e, tvar, svar, where):
+    """A test of an if-chain over the kernel type (variable tvar) and the
+    stochasticity flag (variable svar, may be None) as a switch_cond term."""
+    k = e[0]
+    if k == "bin" and e[1] in ("==", "!="):
+        a, b = e[2], e[3]
+        if b == ("var", tvar) or (svar and b == ("var", svar)):
+            a, b = b, a
+        c = None
+        if a == ("var", tvar) and b[0] == "var" and b[1].startswith("DispersalKernelType::") and b[1][21:] in KERNEL_ENUM:
+            c = "ScType K%s" % b[1][21:]
+        elif svar and a == ("var", svar) and b in (("var", "true"), ("var", "false")):
+            c = "ScStoch" if b[1] == "true" else "ScNot ScStoch"
+        if c is not None:
+            return c if e[1] == "==" else "ScNot (%s)" % c
+    if k == "var" and svar and e[1] == svar:
+        return "ScStoch"
+    if k == "var" and e[1] == "true":
+        return "ScTrue"
+    if k == "var" and e[1] == "false":
+        return "ScNot ScTrue"
+    if k == "un" and e[1] == "!":
+        return "ScNot (%s)" % cond_term(e[2], tvar, svar, where)
+    if k == "bin" and e[1] in ("&&", "||"):
+        return "%s (%s) (%s)" % ("ScAnd" if e[1] == "&&" else "ScOr", cond_term(e[2], tvar, svar, where),
+                                 cond_term(e[3], tvar, svar, where))
+    raise Unparsed("%s: test not understood (expected comparisons of %s with DispersalKernelType::X%s): %r"
+                   % (where, tvar, " and the flag " + svar if svar else "", e))
+
+
+def guard_term(guard):
+    if not guard:
+        return "ScTrue"
+    g = guard[0]
+    for c in guard[1:]:
+        g = "ScAnd (%s) (%s)" % (g, c)
+    return g
+
+
+def strip_labels(toks, where):
+    """`case A : case B : default : rest` -> ([A, B, 'default'], rest)"""
+    labels = []
+    while toks and toks[0][1] in ("case", "default"):
+        if toks[0][1] == "default":
+            if len(toks) < 2 or toks[1][1] != ":":
+                raise Unparsed("%s: default label: %s" % (where, show(toks)))
+            labels.append("default")
+            toks = toks[2:]
+            continue
+        j = 1
+        while j < len(toks) and toks[j][1] != ":":
+            j += 1
+        if j >= len(toks):
+            raise Unparsed("%s: case label without ':': %s" % (where, show(toks)))
+        labels.append(joined(toks[1:j]))
+        toks = toks[j + 1:]
+    return labels, toks
+
+
+def decision_entries(stmts, guard, leaf, tvar, svar, where):
+    """Flattens a function body that decides by if / else-if chains, early
+    returns or a switch over the kernel type into [(guard conjuncts, value)] in
+    source order (first match decides) - sound because every then-branch must
+    return on all its paths.  Returns (entries, returns_on_all_paths)."""
+    entries = []
+    stmts = list(stmts)
+    while stmts:
+        s = stmts.pop(0)
+        if s[0] == "simple":
+            toks = s[1]
+            if not toks or toks[0][1] == "UNUSED":
+                continue
+            if toks[0][1] == "return":
+                entries += leaf(toks[1:], guard)
+                return entries, True
+            raise Unparsed("%s: statement not understood: %s" % (where, show(toks)))
+        if s[0] == "if":
+            c = cond_term(parse_expr(s[1], where), tvar, svar, where)
+            ents, comp = decision_entries(s[2], guard + [c], leaf, tvar, svar, where)
+            if not comp:
+                raise Unparsed("%s: the branch of `if (%s)` does not return on all paths" % (where, show(s[1])))
+            entries += ents
+            if s[3] is not None:
+                stmts = list(s[3]) + stmts
+            continue
+        if s[0] == "switch":
+            if joined(s[1]) != tvar:
+                raise Unparsed("%s: switch over %s, expected %s" % (where, joined(s[1]), tvar))
+            if len(s) < 4 or s[3] is None:
+                raise Unparsed("%s: switch without a braced body" % where)
+            # split the raw body at the case / default labels of this switch (depth 0)
+            groups = []
+            raw = s[3]
+            i = 0
+            depth = 0
+            while i < len(raw):
+                tk = raw[i][1]
+                if depth == 0 and tk in ("case", "default"):
+                    labels, rest = strip_labels(raw[i:], where)
+                    i = len(raw) - len(rest)
+                    if groups and not groups[-1][1]:
+                        groups[-1][0].extend(labels)  # case A: case B: share their statements
+                    else:
+                        groups.append((labels, []))
+                    continue
+                if not groups:
+                    raise Unparsed("%s: statement before the first case label" % where)
+                if tk in "({[":
+                    depth += 1
+                elif tk in ")}]":
+                    depth -= 1
+                groups[-1][1].append(raw[i])
+                i += 1
+            groups = [(labels, statements(toks_)) for labels, toks_ in groups]
+            default = []
+            for labels, body in groups:
+                if "default" in labels:
+                    if len(labels) > 1:
+                        raise Unparsed("%s: default shares its statements with case labels" % where)
+                    default = body
+                    continue
+                cs = []
+                for lab in labels:
+                    if not lab.startswith("DispersalKernelType::") or lab[21:] not in KERNEL_ENUM:
+                        raise Unparsed("%s: case label %s" % (where, lab))
+                    cs.append("ScType K%s" % lab[21:])
+                c = cs[0]
+                for x in cs[1:]:
+                    c = "ScOr (%s) (%s)" % (c, x)
+                ents, comp = decision_entries(body, guard + [c], leaf, tvar, svar, where)
+                if not comp:
+                    raise Unparsed("%s: case %s does not return (break / fall through are not understood)" % (where, labels))
+                entries += ents
+            stmts = list(default) + stmts
+            continue
+        raise Unparsed("%s: statement kind %s not understood" % (where, s[0]))
+    return entries, False
+
+
+def decision_table(body, leaf, tvar, svar, where):
+    ents, comp = decision_entries(statements(body), [], leaf, tvar, svar, where)
+    if not comp or not ents or ents[-1][0]:
+        raise Unparsed("%s: the function does not end with an unconditional return" % where)
+    return [(guard_term(g), v) for g, v in ents[:-1]], ents[-1][1]
+
+
+def coq_table(entries):
+    if not entries:
+        return "[]"
+    return "[ " + ";\n    ".join("(%s, %s)" % e for e in entries) + " ]"
+
+
+def bool_leaf_entries(toks, guard, tvar, where, const, other=None):
+    """return true / false / <test over the type> / other(text)"""
+    txt = joined(toks)
+    if txt in ("true", "false"):
+        return [(guard, const(txt))]
+    if other is not None:
+        v = other(txt)
+        if v is not None:
+            return [(guard, v)]
+    try:
+        c = cond_term(parse_expr(toks, where), tvar, None, where)
+    except Unparsed:
+        raise Unparsed("%s: returned value not understood: %s" % (where, show(toks)))
+    return [(guard + [c], const("true")), (guard, const("false"))]
+
+
+def class_supports_table(body, cname, where):
+    """supports_kernel(type) of a kernel class: if-chain / `return type == X` /
+    static array + std::find."""
+    _, _, fb = find_function(body, "supports_kernel", where)
+    st = statements(fb)
+    if st and st[0][0] == "simple" and st[0][1] and st[0][1][0][1] == "static":
+        if len(st) != 3 or any(s[0] != "simple" for s in st):
+            raise Unparsed("%s: %s::supports_kernel: expected array, std::find, return" % (where, cname))
+        m = re.fullmatch(r"staticconststd::array<DispersalKernelType,(\d+)>(\w+)=\{(.*)\}", joined(st[0][1]))
+        if not m:
+            raise Unparsed("%s: %s::supports_kernel: array declaration not understood: %s" % (where, cname, show(st[0][1])))
+        n, arr, items = int(m.group(1)), m.group(2), [x for x in m.group(3).split(",") if x]
+        kinds = []
+        for it in items:
+            if not it.startswith("DispersalKernelType::") or it[21:] not in KERNEL_ENUM:
+                raise Unparsed("%s: %s::supports_kernel: array element %s" % (where, cname, it))
+            kinds.append(it[21:])
+        if len(kinds) > n:
+            raise Unparsed("%s: %s::supports_kernel: more initialisers than elements" % (where, cname))
+        kinds += [KERNEL_ENUM[0]] * (n - len(kinds))  # value-initialised elements are enumerator 0
+        m2 = re.fullmatch(r"auto(\w+)=std::find\(%s\.c?begin\(\),%s\.c?end\(\),type\)" % (arr, arr), joined(st[1][1]))
+        if not m2 or not re.fullmatch(r"return%s!=%s\.c?end\(\)" % (m2.group(1), arr), joined(st[2][1])):
+            raise Unparsed("%s: %s::supports_kernel: lookup is not std::find over the whole array" % (where, cname))
+        c = None
+        for kd in kinds:
+            c = "ScType K%s" % kd if c is None else "ScOr (%s) (ScType K%s)" % (c, kd)
+        return ([(c, "true")] if c else []), "false"
+    leaf = lambda toks, guard: bool_leaf_entries(toks, guard, "type", "%s %s::supports_kernel" % (where, cname), lambda x: x)
+    return decision_table(fb, leaf, "type", None, "%s %s::supports_kernel" % (where, cname))
+
+
+def region_class_eligibility(repo, out):
+    rules = {}
+    supports = {}
+    for hdr, cname in CLASS_HEADERS:
+        toks = header_tokens(repo, hdr)
+        body = class_body(toks, cname, hdr)
+        params, _, fb = find_function(body, "is_cell_eligible", hdr)
+        if param_names(params) != ["row", "col"]:
+            raise Unparsed("%s: %s::is_cell_eligible parameters are %s" % (hdr, cname, param_names(params)))
+        where = "%s %s::is_cell_eligible" % (hdr, cname)
+
+        def leaf(toks_, guard):
+            txt = joined(toks_)
+            if txt in ("true", "false"):
+                return [(guard, "EligConst %s" % txt)]
+            if txt == "network_.has_node_at(row,col)":
+                return [(guard, "EligNodeAt")]
+            raise Unparsed("%s: returned value not understood: %s" % (where, show(toks_)))
+        tbl, dflt = decision_table(fb, leaf, "?", None, where)
+        if tbl:
+            raise Unparsed("%s: conditional eligibility is not modelled" % where)
+        rules[SWITCH_CLASSES[cname]] = dflt
+        supports[SWITCH_CLASSES[cname]] = class_supports_table(body, cname, hdr)
+    order = ["CUniform", "CNeighbor", "CNetwork", "CDeterministic", "CRadial"]
+    out.append("(* ---- is_cell_eligible(row, col) of the five kernel classes ---- *)")
+    out.append("Definition class_eligible (c : kernel_class) : elig_rule :=\n  match c with\n"
+               + "\n".join("  | %s => %s" % (c, rules[c]) for c in order) + "\n  end.")
+    out.append("(* ---- static supports_kernel(type) of the five kernel classes ---- *)")
+    out.append("Definition class_supports (c : kernel_class) (ty : kernel_type) : bool :=\n  match c with\n"
+               + "\n".join("  | %s => first_match\n    %s\n    %s ty false" % (c, coq_table(supports[c][0]), supports[c][1]) for c in order)
+               + "\n  end.")
+    # DynamicWrapperKernel (kernel_base.hpp)
+    hdr = "kernel_base.hpp"
+    toks = header_tokens(repo, hdr)
+    body = class_body(toks, "DynamicWrapperKernel", hdr)
+    members = member_decls(body)
+    if ("ActualKernel", "kernel_") not in members:
+        raise Unparsed("%s: DynamicWrapperKernel has no member `ActualKernel kernel_`" % hdr)
+
+    def unqualified(toks_):
+        q = ["DynamicWrapperKernel", "<", "ActualKernel", ",", "Generator", ">", "::"]
+        res = []
+        i = 0
+        while i < len(toks_):
+            if [t[1] for t in toks_[i:i + len(q)]] == q:
+                i += len(q)
+                continue
+            res.append(toks_[i])
+            i += 1
+        return res
+    params, _, fb = find_function(body, "is_cell_eligible", hdr)
+    st = [s for s in statements(fb) if not (s[0] == "simple" and (not s[1] or s[1][0][1] == "UNUSED"))]
+    if param_names(params) != ["row", "col"] or len(st) != 1 or st[0][0] != "simple" or st[0][1][0][1] != "return":
+        raise Unparsed("%s: DynamicWrapperKernel::is_cell_eligible is not a single return" % hdr)
+
+    def wb(e):
+        if e == ("call", "kernel_.is_cell_eligible", [("var", "row"), ("var", "col")]):
+            return "inner"
+        if e == ("var", "true") or e == ("var", "false"):
+            return e[1]
+        if e[0] == "un" and e[1] == "!":
+            return "(negb %s)" % wb(e[2])
+        if e[0] == "bin" and e[1] in ("&&", "||"):
+            return "(%s %s %s)" % (wb(e[2]), e[1], wb(e[3]))
+        raise Unparsed("%s: DynamicWrapperKernel::is_cell_eligible returns %r" % (hdr, e))
+    w = wb(parse_expr(unqualified(st[0][1][1:]), hdr))
+    oparams, obody = find_call_operator(body, hdr)
+    ost = statements(obody)
+    if param_names(oparams) != ["generator", "row", "col"] or len(ost) != 1 or ost[0][0] != "simple" \
+            or joined(unqualified(ost[0][1])) not in ("returnkernel_.operator()(generator,row,col)", "returnkernel_(generator,row,col)"):
+        raise Unparsed("%s: DynamicWrapperKernel::operator() does not return kernel_(generator, row, col)" % hdr)
+    out.append("(* ---- kernel_base.hpp: DynamicWrapperKernel::is_cell_eligible; inner = kernel_.is_cell_eligible(row, col)\n"
+               "   (operator() returns kernel_.operator()(generator, row, col) - checked by the translator) ---- *)")
+    out.append("Definition wrapper_eligible (inner : bool) : bool := %s." % w)
+
+
+def region_switch(repo, out):
+    hdr = "switch_kernel.hpp"
+    toks = header_tokens(repo, hdr)
+    body = class_body(toks, "SwitchDispersalKernel", hdr)
+    members = member_decls(body)
+    mclass = {}
+    tvar = svar = None
+    for ty, name in members:
+        cls = [c for c in SWITCH_CLASSES if ty == c or ty.startswith(c + "<")]
+        if cls:
+            mclass[name] = SWITCH_CLASSES[cls[0]]
+        elif ty == "DispersalKernelType":
+            tvar = name
+        elif ty == "bool":
+            svar = name
+        else:
+            raise Unparsed("%s: member %s has the unexpected type %s" % (hdr, name, ty))
+    if tvar is None or svar is None or sorted(mclass.values()) != sorted(SWITCH_CLASSES.values()):
+        raise Unparsed("%s: expected one kernel type, one bool and one member of each of the five kernel classes, found %s"
+                       % (hdr, members))
+    # constructor: every member is initialised from the parameter of its own kind
+    params, inits, cbody = find_function(body, "SwitchDispersalKernel", hdr, ctor=True)
+    if inits is None or [s for s in statements(cbody) if s[0] != "simple" or s[1]]:
+        raise Unparsed("%s: constructor is not an initialiser list with an empty body" % hdr)
+    pkind = {}
+    sdefault = None
+    sparam = tparam = None
+    for ptoks in split_top(params):
+        if not ptoks:
+            continue
+        q = []
+        dflt = None
+        for i, t_ in enumerate(ptoks):
+            if t_[1] == "=":
+                dflt = ptoks[i + 1:]
+                break
+            q.append(t_)
+        name = q[-1][1]
+        ids = [t_[1] for t_ in q[:-1]]
+        cls = [c for c in SWITCH_CLASSES if c in ids]
+        if cls:
+            pkind[name] = SWITCH_CLASSES[cls[0]]
+        elif "DispersalKernelType" in ids:
+            tparam = name
+        elif "bool" in ids:
+            sparam = name
+            if dflt is not None:
+                if joined(dflt) not in ("true", "false"):
+                    raise Unparsed("%s: default of %s is not a literal" % (hdr, name))
+                sdefault = joined(dflt)
+        else:
+            raise Unparsed("%s: constructor parameter %s" % (hdr, show(ptoks)))
+    il = dict(init_list(inits, hdr))
+    for m, cls in mclass.items():
+        src = [p for p, c in pkind.items() if c == cls]
+        if len(src) != 1 or m not in il or len(il[m]) != 1 or joined(il[m][0]) != src[0]:
+            raise Unparsed("%s: member %s is not initialised from the constructor's %s parameter" % (hdr, m, cls))
+    if tparam is None or tvar not in il or len(il[tvar]) != 1 or joined(il[tvar][0]) != tparam:
+        raise Unparsed("%s: %s is not initialised from the kernel type parameter" % (hdr, tvar))
+    if sparam is None or svar not in il or len(il[svar]) != 1:
+        raise Unparsed("%s: %s is not initialised from the stochasticity parameter" % (hdr, svar))
+
+    def sb(e):
+        if e == ("var", sparam):
+            return "dispersal_stochasticity"
+        if e in (("var", "true"), ("var", "false")):
+            return e[1]
+        if e[0] == "un" and e[1] == "!":
+            return "(negb %s)" % sb(e[2])
+        raise Unparsed("%s: %s is initialised with %r" % (hdr, svar, e))
+    out.append("(* ---- switch_kernel.hpp: SwitchDispersalKernel ---- *)")
+    out.append("(* constructor: what is stored in %s; the default of the parameter *)" % svar)
+    out.append("Definition switch_stored_stochasticity (dispersal_stochasticity : bool) : bool := %s."
+               % sb(parse_expr(il[svar][0], hdr)))
+    if sdefault is None:
+        raise Unparsed("%s: the stochasticity parameter has no default" % hdr)
+    out.append("Definition switch_default_stochasticity : bool := %s." % sdefault)
+    # operator()
+    oparams, obody = find_call_operator(body, hdr)
+    if param_names(oparams) != ["generator", "row", "col"]:
+        raise Unparsed("%s: operator() parameters are %s" % (hdr, param_names(oparams)))
+    where = hdr + " SwitchDispersalKernel::operator()"
+
+    def call_leaf(toks_, guard):
+        m = re.fullmatch(r"(\w+)(?:\.operator\(\))?\(generator,row,col\)", joined(toks_))
+        if not m or m.group(1) not in mclass:
+            raise Unparsed("%s: a branch does not return <member kernel>(generator, row, col): %s" % (where, show(toks_)))
+        return [(guard, mclass[m.group(1)])]
+    tbl, dflt = decision_table(obody, call_leaf, tvar, svar, where)
+    out.append("(* operator(): tests in source order -> class of the member kernel called with (generator, row, col) *)")
+    out.append("Definition gen_switch_dispatch : list (switch_cond * kernel_class) :=\n  %s." % coq_table(tbl))
+    out.append("Definition gen_switch_dispatch_else : kernel_class := %s." % dflt)
+    # is_cell_eligible
+    params, _, fb = find_function(body, "is_cell_eligible", hdr)
+    if param_names(params) != ["row", "col"]:
+        raise Unparsed("%s: is_cell_eligible parameters are %s" % (hdr, param_names(params)))
+    where = hdr + " SwitchDispersalKernel::is_cell_eligible"
+
+    def elig_leaf(toks_, guard):
+        txt = joined(toks_)
+        if txt in ("true", "false"):
+            return [(guard, "SeConst %s" % txt)]
+        m = re.fullmatch(r"(\w+)\.is_cell_eligible\(row,col\)", txt)
+        if not m or m.group(1) not in mclass:
+            raise Unparsed("%s: a branch returns neither a literal nor <member kernel>.is_cell_eligible(row, col): %s"
+                           % (where, show(toks_)))
+        return [(guard, "SeMember %s" % mclass[m.group(1)])]
+    tbl, dflt = decision_table(fb, elig_leaf, tvar, svar, where)
+    out.append("(* is_cell_eligible(row, col): tests in source order -> what is returned *)")
+    out.append("Definition gen_switch_eligible : list (switch_cond * elig_src) :=\n  %s." % coq_table(tbl))
+    out.append("Definition gen_switch_eligible_else : elig_src := %s." % dflt)
+    # supports_kernel
+    params, _, fb = find_function(body, "supports_kernel", hdr)
+    if param_names(params) != ["type"]:
+        raise Unparsed("%s: supports_kernel parameters are %s" % (hdr, param_names(params)))
+    where = hdr + " SwitchDispersalKernel::supports_kernel"
+
+    def sup_other(txt):
+        m = re.fullmatch(r"(\w+)(?:<[\w,:]*>)?::supports_kernel\(type\)", txt)
+        if m and m.group(1) in SWITCH_CLASSES:
+            return "SsClass %s" % SWITCH_CLASSES[m.group(1)]
+        return None
+    leaf = lambda toks_, guard: bool_leaf_entries(toks_, guard, "type", where, lambda x: "SsConst %s" % x, sup_other)
+    tbl, dflt = decision_table(fb, leaf, "type", None, where)
+    out.append("(* static supports_kernel(type) *)")
+    out.append("Definition gen_switch_supports : list (switch_cond * supports_src) :=\n  %s." % coq_table(tbl))
+    out.append("Definition gen_switch_supports_else : supports_src := %s." % dflt)
+
+
+def region_dynamic_kernel(repo, out):
+    hdr = "kernel.hpp"
+    toks = header_tokens(repo, hdr)
+    params, _, body = find_function(toks, "create_dynamic_kernel", hdr)
+    if param_names(params) != ["config", "dispersers", "network"]:
+        raise Unparsed("%s: create_dynamic_kernel parameters are %s" % (hdr, param_names(params)))
+    st = statements(body)
+    if len(st) != 1 or st[0][0] != "simple" or st[0][1][0][1] != "return":
+        raise Unparsed("%s: create_dynamic_kernel is not a single return statement" % hdr)
+    # drop template argument lists `name < ... >` of the three templates involved
+    flat = []
+    ts = st[0][1][1:]
+    i = 0
+    while i < len(ts):
+        flat.append(ts[i])
+        if ts[i][1] in ("DispersalKernel", "create_natural_kernel", "create_anthro_kernel") and i + 1 < len(ts) and ts[i + 1][1] == "<":
+            j = i + 1
+            while j < len(ts) and ts[j][1] != ">":
+                j += 1
+            i = j
+        i += 1
+    if len(flat) < 3 or flat[0][1] != "DispersalKernel" or flat[1][1] != "(" or match_close(flat, 1, "(", ")") != len(flat) - 1:
+        raise Unparsed("%s: create_dynamic_kernel does not return DispersalKernel<Generator>(...)" % hdr)
+    args = [joined(a) for a in split_top(flat[2:-1])]
+    # the alias: DispersalKernel = NaturalAnthropogenicDispersalKernel<KernelInterface<Generator>, KernelInterface<Generator>>
+    i = find_seq(toks, ["using", "DispersalKernel", "="])
+    if i < 0:
+        raise Unparsed("%s: alias DispersalKernel not found" % hdr)
+    j = i
+    while toks[j][1] != ";":
+        j += 1
+    if joined(toks[i + 3:j]) != "NaturalAnthropogenicDispersalKernel<KernelInterface<Generator>,KernelInterface<Generator>>":
+        raise Unparsed("%s: DispersalKernel is %s" % (hdr, joined(toks[i + 3:j])))
+    out.append("(* ---- kernel.hpp: create_dynamic_kernel: arguments of the NaturalAnthropogenicDispersalKernel constructor\n"
+               "   (natural_kernel, anthropogenic_kernel, use_anthropogenic_kernel, percent_natural_dispersal) ---- *)")
+    out.append("Definition dynamic_kernel_args : list string :=\n  [ %s ]." % "; ".join(coq_string(a) for a in args))
+
+
 def main():
     if len(sys.argv) != 3:
         print(__doc__)
@@ -1419,6 +1884,9 @@ def main():
     attempt(region_uniform, repo, out)
     attempt(region_mix, repo, out)
     attempt(region_factories, repo, out)
+    attempt(region_class_eligibility, repo, out)
+    attempt(region_switch, repo, out)
+    attempt(region_dynamic_kernel, repo, out)
     out.append("(* ================= real-valued part ================= *)")
     out.append("Local Open Scope R_scope.")
     ctor_params = {}
